@@ -418,6 +418,8 @@ impl CommitKey {
         &self,
         polynomial: &Polynomial,
     ) -> Result<Commitment, Error> {
+        #[cfg(feature = "verif")]
+        crate::verif::sched_point("kzg.commit", polynomial.len());
         // Check whether we can safely commit to this polynomial
         self.check_commit_degree_is_within_bounds(polynomial.degree())?;
 
